@@ -516,6 +516,7 @@ type c14Out struct {
 	isErr bool
 	err   string
 	panic string
+	held  *PhantomIP // the value the call returned, kept to be read again later (see stillSame)
 }
 
 func (o c14Out) same(p c14Out) bool {
@@ -581,7 +582,27 @@ func (w *c14World) do(c c14Call) (o c14Out) {
 	if ph == nil || ph.IP() == nil || *ph.IP() == nil {
 		return c14Out{noIP: true}
 	}
-	return c14Out{ip: append([]byte{}, (*ph.IP())...), flag: ph.SupportRandomPort()}
+	return c14Out{ip: append([]byte{}, (*ph.IP())...), flag: ph.SupportRandomPort(), held: ph}
+}
+
+// stillSame reads the results the calls returned earlier once more: a result that other selections
+// made afterwards have changed is not a function of its own inputs alone.
+func (x *c14Ctx) stillSame(calls []c14Call, outs []c14Out, phase, after string) {
+	for i, o := range outs {
+		if o.held == nil || x.stop {
+			continue
+		}
+		var now []byte
+		if p := o.held.IP(); p != nil {
+			now = *p
+		}
+		if bytes.Equal(now, o.ip) && o.held.SupportRandomPort() == o.flag {
+			continue
+		}
+		x.fail("C14/impure/"+calls[i].class()+"/result-changed-after-return",
+			"c%02d %s returned %s (%s); read again %s, the same returned value says %s random-port=%v",
+			i, x.w.describe(calls[i]), o, phase, after, c14IPText(now), o.held.SupportRandomPort())
+	}
 }
 
 // ---------------------------------------------------------------------------
@@ -804,6 +825,11 @@ func (x *c14Ctx) runCalls(calls []c14Call, setup func(*hook.Sched)) {
 		}
 	}
 
+	x.stillSame(calls, ref, "executed alone", "after the other selections had been executed alone")
+	if x.stop {
+		return
+	}
+
 	s := hook.Install(r.Tape)
 	defer s.Uninstall()
 	s.LockYield = true
@@ -926,6 +952,11 @@ func (x *c14Ctx) runCalls(calls []c14Call, setup func(*hook.Sched)) {
 			return
 		}
 	}
+	x.stillSame(calls, ref, "executed alone", "after the concurrent phase")
+	x.stillSame(calls, conc, "executed concurrently", "after all concurrent selections had returned")
+	if x.stop {
+		return
+	}
 	if anyInter {
 		r.Probe("sched/legacy-calls-interleaved")
 	}
@@ -947,6 +978,11 @@ func (x *c14Ctx) runCalls(calls []c14Call, setup func(*hook.Sched)) {
 		if x.stop {
 			return
 		}
+	}
+	x.stillSame(calls, ref, "executed alone", "after every selection had been repeated")
+	x.stillSame(calls, conc, "executed concurrently", "after every selection had been repeated")
+	if x.stop {
+		return
 	}
 	if x.okN > 0 {
 		r.Nontrivial()
